@@ -1,2 +1,3 @@
 import Driver.Codec
 import Driver.Query
+import Driver.Mutate
